@@ -94,12 +94,71 @@ fn reference_decision(variant: &str, h: u64, concurrent: bool, list: &[&str], ev
     None
 }
 
+fn check_second_pending(case: &Case, want_sample: bool) -> RunOut {
+    if !history_consistent(&case.ops) {
+        return RunOut::skip("history-not-consistent");
+    }
+    let mut st = match Stepper::new_filtered(&case.cfg, &case.files, Mode::Ticking) {
+        Ok(s) => s,
+        Err(_) => return RunOut::skip("parser-rejected"),
+    };
+    st.run_ops(&case.ops);
+    st.gap(400);
+    st.finish();
+    let outs = st.trace.outs.clone();
+    let mut o = RunOut::pass();
+    o.sim_ms = st.trace.sim_ms;
+    o.count("pop.second-pending", 1);
+    let mut sig = fnv(0, case.cfg.as_bytes());
+    for op in &case.ops {
+        sig = fnv(sig, op.short().as_bytes());
+    }
+    o.sig = sig;
+    if st.probes.max_extra_waiting > 0 {
+        o.count("probe.two-tap-hold-decisions-pending-at-once", 1);
+    }
+    let presses: Vec<&OutEv> = outs.iter().filter(|e| e.kind == OutKind::Press).collect();
+    o.nontrivial = presses.iter().any(|e| e.key == "P" || e.key == "Q");
+    let d = st.down_set();
+    if !d.is_empty() {
+        o.set_fail("C05:stuck-after-release", format!("keys still down at the end: {:?}: {}", d.keys, outs_short(&outs)), vec![]);
+    }
+    let n1 = presses.iter().filter(|e| e.key == "X" || e.key == "Y").count();
+    let n2 = presses.iter().filter(|e| e.key == "P" || e.key == "Q").count();
+    let nb = presses.iter().filter(|e| e.key == "Kb1").count();
+    // only histories in which the chord did activate as a tap-hold are judged (j and k may also
+    // come out singly when they are too far apart)
+    if n2 == 0 {
+        return o;
+    }
+    if (n1, n2, nb) != (1, 1, 1) && !o.failed() {
+        o.set_fail("C05:not-exactly-one-outcome", format!("first tap-hold {n1}, chord tap-hold {n2}, plain key {nb} press outputs (expected 1 each): {}", outs_short(&outs)), vec![]);
+    }
+    if !o.failed() {
+        let pos = |keys: &[&str]| presses.iter().position(|e| keys.contains(&e.key.as_str())).unwrap_or(usize::MAX);
+        let (p1, p2, pb) = (pos(&["X", "Y"]), pos(&["P", "Q"]), pos(&["Kb1"]));
+        // (with concurrent-tap-hold the two decisions may come in either order; the plain key,
+        // pressed after both, comes after both)
+        if !(p1 < pb && p2 < pb) {
+            o.set_fail(
+                "C05:buffered-key-output-before-decision",
+                format!("press order was tap-hold key, chord (a second tap-hold), plain key; the outputs came as {:?}: {}", presses.iter().map(|e| e.key.clone()).collect::<Vec<_>>(), outs_short(&outs)),
+                vec![],
+            );
+        }
+    }
+    if want_sample {
+        o.sample = Some(sample_json(case, &outs, serde_json::json!({"pop": "second-pending"})));
+    }
+    o
+}
+
 impl Prop for C05 {
     fn id(&self) -> &'static str {
         "C05"
     }
     fn rule_text(&self) -> String {
-        "case = one tap-hold key (all 7 variants; tap / hold / timeout actions are three distinct marker keys) + two plain keys, H in {1,2,5,50,200}, tap-repress window in {0,H,2H}, concurrent-tap-hold on/off, rapid-event-delay in {0,5}; schedules of <= 8 events with gaps from the boundary grid {0,1,H-1,H,H+1,...}. Populations: solo (exact tick), inter (one tap-hold press from a drained engine interleaved with other keys: exact decision + tick from a reference function, buffered keys in order), repress, random (two tap-hold keys: exclusivity + no loss/duplication). non-trivial = a tap-hold decision was observed; distinct = (variant,H,concurrent,delay) x schedule signature hash (the fraction of the boundary grid reached is reported under grid_cells).".into()
+        "case = one tap-hold key (all 7 variants; tap / hold / timeout actions are three distinct marker keys) + two other keys (plain; one of them optionally a mouse-button key, i.e. a custom action only), H in {1,2,5,50,200}, tap-repress window in {0,H,2H}, concurrent-tap-hold on/off, rapid-event-delay in {0,5}; schedules of <= 8 events with gaps from the boundary grid {0,1,H-1,H,H+1,...}. Populations: solo (exact tick), inter (one tap-hold press from a drained engine interleaved with other keys: exact decision + tick from a reference function, buffered keys in order), repress, random (two tap-hold keys: exclusivity + no loss/duplication), second-pending (a chords-v2 chord whose action is a tap-hold activates while a physical tap-hold is undecided, then a plain key: one outcome each, the plain key output after both decisions). non-trivial = a tap-hold decision was observed; distinct = (variant,H,concurrent,delay) x schedule signature hash (the fraction of the boundary grid reached is reported under grid_cells).".into()
     }
     fn runs(&self, tier: Tier) -> u64 {
         match tier {
@@ -109,6 +168,44 @@ impl Prop for C05 {
     }
     fn gen(&self, seed: u64, _tier: Tier) -> Case {
         let mut r = Rng::new(seed);
+        if r.chance(60) {
+            // 'second-pending' population: while a physical tap-hold key is undecided a chords-v2
+            // chord whose action is another tap-hold activates (a second decision pending at the
+            // same time), then a plain key is typed. Whatever is decided first, the plain key must
+            // not come out before both decisions, and the outputs keep the press order.
+            let h = *r.pick(&[60u64, 200]);
+            let h2 = *r.pick(&[60u64, 200, 300]);
+            let v1 = *r.pick(&["tap-hold", "tap-hold-release", "tap-hold-press"]);
+            let v2 = *r.pick(&["tap-hold", "tap-hold-release"]);
+            let mut case = Case { prop: "C05".into(), seed, ..Default::default() };
+            case.cfg = format!(
+                "(defcfg concurrent-tap-hold yes)\n(defsrc a j k b)\n(deflayer l0 ({v1} 0 {h} x y) j k 1)\n(defchordsv2 (j k) ({v2} 0 {h2} p q) 50 {} ())\n",
+                *r.pick(&["all-released", "first-release"])
+            );
+            let (a, j, k, b) = (oscode_of("a"), oscode_of("j"), oscode_of("k"), oscode_of("b"));
+            let mut ops = vec![Op::Press(a), Op::Gap(r.range(3, 15) as u32), Op::Press(j)];
+            if r.chance(500) {
+                ops.push(Op::Gap(r.range(1, 5) as u32));
+            }
+            ops.push(Op::Press(k));
+            ops.push(Op::Gap(r.range(5, 25) as u32));
+            ops.push(Op::Press(b));
+            ops.push(Op::Gap(r.range(3, 20) as u32));
+            // releases in a random order, some before and some after the hold times
+            let mut rel = vec![a, j, k, b];
+            r.shuffle(&mut rel);
+            for key in rel {
+                ops.push(Op::Release(key));
+                ops.push(Op::Gap(*r.pick(&[2u32, 5, 20, 150, 400])));
+            }
+            ops.push(Op::Gap(700));
+            case.ops = ops;
+            case.set("pop", "second-pending");
+            case.set("min_ops", 0);
+            case.set("min_cfg", 0);
+            case.set("min_gaps", 0);
+            return case;
+        }
         let variant = *r.pick(VARIANTS);
         let h = *r.pick(&[1u64, 2, 5, 50, 200]);
         let w = *r.pick(&[0, 0, h, 2 * h]);
@@ -125,10 +222,15 @@ impl Prop for C05 {
         let mut case = Case { prop: "C05".into(), seed, ..Default::default() };
         let a_act = th_action(variant, if pop == "repress" { (2 * h).max(40) } else { w }, h, "x", "y", "z", &list);
         let d_act = if pop == "random" { th_action(*r.pick(VARIANTS), 0, *r.pick(&[1u64, 2, 5, 50]), "p", "q", "r", &list) } else { "3".to_string() };
+        // the second other key is either a plain key or a key whose action is a custom action only
+        // (mouse button): it is buffered, counted as "another key" and replayed like any key
+        let c_custom = r.chance(250);
         case.cfg = format!(
-            "(defcfg concurrent-tap-hold {} rapid-event-delay {red})\n(defsrc a b c d)\n(deflayer l0 {a_act} 1 2 {d_act})\n",
-            if concurrent { "yes" } else { "no" }
+            "(defcfg concurrent-tap-hold {} rapid-event-delay {red})\n(defsrc a b c d)\n(deflayer l0 {a_act} 1 {} {d_act})\n",
+            if concurrent { "yes" } else { "no" },
+            if c_custom { "mlft" } else { "2" }
         );
+        case.set("c_custom", c_custom as u8);
         case.set("variant", variant);
         case.set("h", h);
         case.set("w", if pop == "repress" { (2 * h).max(40) } else { w });
@@ -227,6 +329,9 @@ impl Prop for C05 {
     }
 
     fn check(&self, case: &Case, want_sample: bool) -> RunOut {
+        if case.param("pop") == Some("second-pending") {
+            return check_second_pending(case, want_sample);
+        }
         if !history_consistent(&case.ops) {
             return RunOut::skip("history-not-consistent");
         }
@@ -237,7 +342,19 @@ impl Prop for C05 {
         st.run_ops(&case.ops);
         st.gap(300);
         st.finish();
-        let outs = st.trace.outs.clone();
+        let mut outs = st.trace.outs.clone();
+        if case.param_flag("c_custom") {
+            // the mouse button of key c plays the role of its marker
+            for e in outs.iter_mut() {
+                if e.key == "Left" && e.kind == OutKind::MouseDown {
+                    e.kind = OutKind::Press;
+                    e.key = "Kb2".into();
+                } else if e.key == "Left" && e.kind == OutKind::MouseUp {
+                    e.kind = OutKind::Release;
+                    e.key = "Kb2".into();
+                }
+            }
+        }
         let mut o = RunOut::pass();
         o.sim_ms = st.trace.sim_ms;
         let variant = case.param("variant").unwrap_or("tap-hold").to_string();
